@@ -354,6 +354,10 @@ int main(int argc, char **argv)
         if ((idx & 0x3ff) == 0 && mc_deadline()) break;
         char s[256]; s[0] = 0; uint64_t q = k;
         for (int i = 0; i < len; i++) { strcat(s, TOK[q % (uint64_t)NT]); q /= (uint64_t)NT; }
+        /* digit tokens concatenate: "1","2","1","1","1" is the legal arity 12111, a machine far outside the small scope
+         * (minutes under ASan, not a hang): arities of 4 to 10 digits are left out, longer ones overflow and are rejected at once */
+        { int big = 0; for (const char *p2 = s; *p2; ) { if (isdigit((unsigned char)*p2)) { int run = 0; while (isdigit((unsigned char)*p2)) { run++; p2++; } if (run >= 4 && run <= 10) big = 1; } else p2++; }
+          if (big) { mc_count("token_strings_with_a_huge_legal_arity_skipped", 1); continue; } }
         safety_one(s, "tokens");
       }
     }
